@@ -194,6 +194,9 @@ def ref_step(desc, vals, pars, opts=None):
                 br,
                 site,
             )
+            if o.get("user_cap_flow") is not None:  # user kind: inflow additionally capped
+                res.qo[oid] = min(res.qo[oid], o["user_cap_flow"])
+                br.append(("user.origin", "capped-mainstream-flow"))
         elif o["kind"] == "ramp":
             res.qo[oid] = ramp_flow(
                 ov["d"],
